@@ -159,7 +159,7 @@ class SubPlan:
     __slots__ = ("idx", "op", "text", "n", "delays", "pauses", "source_kind",
                  "sub_async", "faults", "wseeds", "exps", "scenario",
                  "initial_value", "async_for", "event_values",
-                 "read_timeouts")
+                 "read_timeouts", "crash")
 
 
 REFUSALS = ("two-fields", "two-aliases", "two-via-fragment",
@@ -168,7 +168,17 @@ REFUSALS = ("two-fields", "two-aliases", "two-via-fragment",
             "pool-runtime")
 
 
-def _plan(draws, spec, idx, scenario):
+_SYNC_BEHAVIOURS = ("sync", "default", "shared", "tdefault", "gen")
+
+
+def _all_sync(spec, op):
+    from .workload import _walk_selections
+    names = {s_.name for s_ in _walk_selections(op) if s_.kind == "field"}
+    return all(b in _SYNC_BEHAVIOURS
+               for (t, f), b in spec.behaviours.items() if f in names)
+
+
+def _plan(draws, spec, idx, scenario, sync_only=False):
     rs = draws.stream("sub%d" % idx)
     plan = SubPlan()
     plan.idx = idx
@@ -282,6 +292,7 @@ def _plan(draws, spec, idx, scenario):
         for k in range(plan.n)]
     plan.faults = [dict() for _ in range(plan.n)]
     plan.exps = []
+    plan.crash = set()
     if scenario == "ok":
         fs = draws.stream("subfaults%d" % idx)
         for k in range(plan.n):
@@ -299,6 +310,35 @@ def _plan(draws, spec, idx, scenario):
             plan.exps.append(expected_response(
                 spec, op, World(spec, plan.wseeds[k], plan.faults[k]),
                 root_value=ev))
+        # Fault: the processing of ONE event dies of an unexpected exception
+        # (after its other fields may have recorded resolver errors).  The
+        # consumer catches it and goes on reading: whatever it is handed
+        # afterwards belongs to the later events, and carries their errors
+        # only.
+        # Only where processing an event is one synchronous step (no executor
+        # threads, no deferred resolver anywhere in the selection): otherwise
+        # resolvers of the doomed event are still in flight when the crash
+        # surfaces, finish during the NEXT event and record their errors in
+        # the executor shared by all events -- an aftermath of unexpected
+        # exceptions that no clause covers (DESIGN 8.5).
+        if plan.n >= 2 and not plan.async_for and sync_only and \
+                _all_sync(spec, op) and fs.chance(1, 2, "crash_event"):
+            k = fs.below(plan.n - 1, "crash_at")
+            ev = plan.event_values[k]
+            base = plan.exps[k]
+            cand = [p for p, what in base.positions if what == "field"]
+            if cand:
+                # a few more resolver errors in the doomed event
+                for _ in range(2):
+                    plan.faults[k].setdefault(
+                        cand[fs.below(len(cand), "crash_err_at")], "err")
+                at = cand[fs.below(len(cand), "crash_field")]
+                plan.faults[k][at] = "boom%d" % fs.below(7, "crash_class")
+                plan.exps[k] = expected_response(
+                    spec, op, World(spec, plan.wseeds[k], plan.faults[k]),
+                    root_value=ev)
+                if plan.exps[k].crash:
+                    plan.crash = {k}
     return plan
 
 
@@ -347,7 +387,8 @@ def run_case(draws, prop, tier="quick"):
     nsub = 1 if scenario != "ok" else 1 + st.weighted((4, 2, 1), "n_sub")
     with_query = scenario == "ok" and st.chance(1, 4, "with_query")
     in_thread = bool(st.below(2, "in_thread"))
-    plans = [_plan(draws, spec, i, scenario) for i in range(nsub)]
+    plans = [_plan(draws, spec, i, scenario, sync_only=not in_thread)
+             for i in range(nsub)]
     qplan = None
     if with_query:
         qs = draws.stream("query")
@@ -456,6 +497,15 @@ def run_case(draws, prop, tier="quick"):
                 got.append(("end", None))
                 break
             except Exception as err:  # noqa: B902
+                if isinstance(err, Boom) and plan.crash:
+                    # the injected crash of one event: note it, read on
+                    kernel.log.add("event_crashed", None, (plan.idx, k))
+                    got.append(("crashed", repr(err)))
+                    k += 1
+                    if k > plan.n + 3:
+                        got.append(("overrun", None))
+                        break
+                    continue
                 got.append(("raised", err))
                 break
             kernel.log.add("delivered", None, (plan.idx, k))
@@ -544,7 +594,35 @@ def run_case(draws, prop, tier="quick"):
                                "stream raised %r after %d results"
                                % (err, len(rs))))
             continue
-        if len(rs) != plan.n or "overrun" in kinds:
+        entries = [g for g in got if g[0] in ("result", "crashed")]
+        pairs = [(i, g[1]) for i, g in enumerate(entries)
+                 if g[0] == "result"]
+        if plan.crash:
+            kc = min(plan.crash)
+            bad = None
+            for i, g in enumerate(entries):
+                if i in plan.crash and g[0] == "result":
+                    bad = ("crashed-event", "result")
+                elif i not in plan.crash and g[0] == "crashed":
+                    bad = ("raised", "Boom")
+            if bad:
+                V.append(Violation(
+                    P, "event_result", bad,
+                    "event %d was to die of an unexpected exception; the "
+                    "consumer saw %r" % (kc, [g[0] for g in entries])))
+                continue
+            if len(entries) > plan.n or "overrun" in kinds or \
+                    len(entries) <= kc:
+                # (the stream ending early AFTER an event crashed is
+                # tolerated: no clause says it has to go on)
+                V.append(Violation(
+                    P, "event_count",
+                    ("more" if len(entries) > plan.n else "fewer",),
+                    "%d reads answered for %d source events (event %d "
+                    "crashes)" % (len(entries), plan.n, kc)))
+                continue
+            res.count("probe:event_crashed_consumer_continued")
+        elif len(rs) != plan.n or "overrun" in kinds:
             V.append(Violation(
                 P, "event_count",
                 ("more" if len(rs) > plan.n else "fewer",),
@@ -565,10 +643,10 @@ def run_case(draws, prop, tier="quick"):
                                "subscription resolver got root %r, "
                                "initial_value was %r" % (ctx.sub_root,
                                                          plan.initial_value)))
-        if ctx.events_seen != list(range(plan.n)):
+        if not plan.crash and ctx.events_seen != list(range(plan.n)):
             V.append(Violation(P, "event_order", ("processing-order",),
                                "events processed %r" % (ctx.events_seen,)))
-        for k, r in enumerate(rs):
+        for k, r in pairs:
             exp = plan.exps[k]
             vs = oracles.check_response(P, "asyncio", exp, r)
             for v in vs:
@@ -610,7 +688,8 @@ def run_case(draws, prop, tier="quick"):
                     payload == ("R0", plan.idx):
                 d = got_start if kind == "field_start" else got_end
                 d[pth] = d.get(pth, 0) + 1
-        for edge, got_h in (("start", got_start), ("end", got_end)):
+        for edge, got_h in (() if plan.crash else
+                            (("start", got_start), ("end", got_end))):
             bad = [pth for pth in set(want_hooks) | set(got_h)
                    if want_hooks.get(pth, 0) != got_h.get(pth, 0)]
             if bad:
